@@ -6,6 +6,7 @@ package models
 
 import (
 	"bytes"
+	"encoding/json"
 	"math"
 	"net/url"
 	"sort"
@@ -104,6 +105,9 @@ func TestEscapers(t *testing.T) {
 		verifModel_template_JSEscape(&b2, []byte(s))
 		if b1.String() != b2.String() {
 			t.Fatalf("JSEscape(%q): %q vs %q", s, b1.String(), b2.String())
+		}
+		if jb, err := json.Marshal(s); err != nil || string(jb) != verifModel_json_quote(s) {
+			t.Fatalf("json quote(%q): %q vs %q", s, jb, verifModel_json_quote(s))
 		}
 		if a, b := url.QueryEscape(s), verifModel_url_QueryEscape(s); a != b {
 			t.Fatalf("QueryEscape(%q): %q vs %q", s, a, b)
